@@ -115,6 +115,10 @@ package metric
 //@                  eff_v3_S(em.MS, em.S), eff_v3_C(em.MC, em.C), eff_v3_I(em.MI, em.I), eff_v3_A(em.MA, em.A), em.CR, em.IR, em.AR)
 //@                == v3_env_inner_k_appA(em.Ver, eff_v3_AV(em.MAV, em.AV), eff_v3_AC(em.MAC, em.AC), eff_v3_PR(em.MPR, em.PR), eff_v3_UI(em.MUI, em.UI),
 //@                  eff_v3_S(em.MS, em.S), eff_v3_C(em.MC, em.C), eff_v3_I(em.MI, em.I), eff_v3_A(em.MA, em.A), em.CR, em.IR, em.AR)
+//@        ; judge ite(v3_env_impact(em.Ver, eff_v3_S(em.MS, em.S), eff_v3_C(em.MC, em.C), eff_v3_I(em.MI, em.I), eff_v3_A(em.MA, em.A), em.CR, em.IR, em.AR) > 0.0,
+//@                    cutval === tenth(v3_env_inner_k(em.Ver, eff_v3_AV(em.MAV, em.AV), eff_v3_AC(em.MAC, em.AC), eff_v3_PR(em.MPR, em.PR), eff_v3_UI(em.MUI, em.UI),
+//@                       eff_v3_S(em.MS, em.S), eff_v3_C(em.MC, em.C), eff_v3_I(em.MI, em.I), eff_v3_A(em.MA, em.A), em.CR, em.IR, em.AR)),
+//@                    cutval === 0.0)
 //@   family outer[C03o,grid] when v3EnvOK(em): em.E in v3.E, em.RL in v3.RL, em.RC in v3.RC ; replace roundUp#0 grid 0 100 as ki
 
 // composition of the two stages (holds by unfolding the definition of v3_env_k)
